@@ -127,7 +127,7 @@ class Ctx:
             self.broken.append(("lake build " + module, out[-4000:]))
         # source audit
         bad = []
-        for d in ("GMGModel", "GMGProofs", "GMGDriver"):
+        for d in ("GMGModel", "GMGProofs", "GMGDriver", "Generated"):
             for dp, _, fs in os.walk(os.path.join(LEAN, d)):
                 for f in fs:
                     if f.endswith(".lean"):
